@@ -721,6 +721,16 @@ func (b *BaseStore) Sync(ctx context.Context, heads []ipfslog.Entry) error {
 			continue
 		}
 
+		// the join checks the signature of every entry, but only once the ancestry of a head
+		// has been fetched: a head that carries a writer's identity without being signed by
+		// it could name blocks nobody holds and keep the replicator waiting for them for good,
+		// with everything fetched meanwhile waiting behind it
+		if err := h.Verify(identityProvider, b.IO()); err != nil {
+			span.AddEvent("store-sync-cant-verify-signature", trace.WithAttributes(otkv.String("error", err.Error())))
+			b.Logger().Debug("warning: Given input entry is not signed by the identity it names and was discarded", zap.Error(err))
+			continue
+		}
+
 		hash, err := b.IO().Write(ctx, b.IPFS(), h, nil)
 		if err != nil {
 			span.AddEvent("store-sync-cant-write", trace.WithAttributes(otkv.String("error", err.Error())))
